@@ -59,6 +59,15 @@ def gen_cases(rng, n, kinds):
             si = rng.randrange(0, max(1, nf // 3))
             ei = rng.randrange(max(si, nf - 1 - nf // 3), nf)
             cases.append(dict(kind=kind, pos=[[hx(a), hx(b)] for a, b in pos], si=si, ei=ei))
+        elif kind == "interp":
+            si = rng.randrange(0, max(1, nf // 3))
+            # distances from startInd: inside the contour, exactly at fine points (computed later by the implementation: here by the chord sums), beyond both ends
+            cum = [0.0]
+            for k in range(nf - 1):
+                cum.append(cum[-1] + math.hypot(pos[k + 1][0] - pos[k][0], pos[k + 1][1] - pos[k][1]))
+            tot = cum[-1] - cum[si]
+            svals = [rng.uniform(-cum[si], tot) for _ in range(5)] + [cum[rng.randrange(nf)] - cum[si], -cum[si] - rng.uniform(0.01, 0.2), tot + rng.uniform(0.01, 0.2), 0.0]
+            cases.append(dict(kind=kind, pos=[[hx(a), hx(b)] for a, b in pos], si=si, s=[hx(v) for v in svals]))
         elif kind == "getdist":
             pts = []
             for _ in range(6):
@@ -119,6 +128,9 @@ HEADER = ("From Coq Require Import ZArith List Bool PrimFloat.\nFrom HT Require 
           "  let m := calc_distance Fops pos in leq m d && leq (rev_distance Fops m) r && PrimFloat.eqb (nth ei m 0 - nth si m 0) tot.\n"
           "Definition k_getdist (pos pts : list (float * float)) (v : list float) : bool :=\n"
           "  leq (map (get_distance Fops pos (calc_distance Fops pos)) pts) v.\n"
+          "Definition k_interp (pos : list (float * float)) (si : nat) (ss : list float) (pts : list (float * float)) (back : list float) : bool :=\n"
+          "  let d := calc_distance Fops pos in let q := map (interp_point Fops pos d si) ss in\n"
+          "  leq (map fst q) (map fst pts) && leq (map snd q) (map snd pts) && leq (map (get_distance Fops pos d) q) back.\n"
           "Fixpoint ys4 (A : list float) (pos : list (float * float)) (B C : list float) : list float :=\n"
           "  match A, pos, B, C with a :: A', p :: pos', b :: B', c :: C' => integrand Fops a (fst p) b c :: ys4 A' pos' B' C' | _, _, _, _ => [] end.\n"
           "Definition mkseg (pos pts : list (float * float)) (si : nat) (A B C : list float) : @seg float :=\n"
@@ -169,6 +181,35 @@ def impl_distance_props(chk, c, r):
         chk.fail("distance:stale-after-reverse", "FineContour.reverse leaves a cached distance that is not the distance along the reversed points", {"case": c, "got": r["rev"]})
 
 
+def impl_interp_props(chk, c, r):
+    """C05_placed_point_*: a point placed at distance s inside the contour lies on the polygon, and getDistance gives s back (up to the bend of the polygon)"""
+    pos = [(float.fromhex(a), float.fromhex(b)) for a, b in c["pos"]]
+    cum = [0.0]
+    for k in range(len(pos) - 1):
+        cum.append(cum[-1] + math.hypot(pos[k + 1][0] - pos[k][0], pos[k + 1][1] - pos[k][1]))
+    d_si = float.fromhex(r["dist_si"])
+    for sv, (R, Z, back) in zip(c["s"], r["points"]):
+        s_, R, Z, back = float.fromhex(sv), float.fromhex(R), float.fromhex(Z), float.fromhex(back)
+        if not (-cum[c["si"]] <= s_ <= cum[-1] - cum[c["si"]]):
+            continue
+        # distance of the point from the polygon
+        best = 1e9
+        for k in range(len(pos) - 1):
+            ax, ay = pos[k]
+            bx, by = pos[k + 1]
+            L2 = (bx - ax) ** 2 + (by - ay) ** 2
+            t = min(1.0, max(0.0, ((R - ax) * (bx - ax) + (Z - ay) * (by - ay)) / L2))
+            best = min(best, math.hypot(R - ax - t * (bx - ax), Z - ay - t * (by - ay)))
+        if best > 1e-12:
+            chk.fail("interp:point-off-the-contour", "FineContour.interpFunction places a point that is not on the polygon through the fine points", {"case": c, "s": s_, "point": [R, Z], "distance_from_polygon": best})
+            return
+        # measured back: within the sagitta of the polygon (second order in the bend); 2 % of the longest segment is generous for these curves
+        seg = max(cum[k + 1] - cum[k] for k in range(len(pos) - 1))
+        if abs((back - d_si) - s_) > 0.02 * seg + 1e-12:
+            chk.fail("interp:distance-round-trip", "the distance getDistance measures for a point placed by interpFunction at distance s is not s", {"case": c, "s": s_, "measured": back - d_si})
+            return
+
+
 def impl_zshift_props(chk, c, r, exp):
     """the statements of C06_uniform_pitch_exact / C06_continuous_at_joins evaluated on what the real calcZShift returned"""
     for i in range(3):
@@ -211,6 +252,9 @@ def correspondence(chk, n, kinds, tag):
                 chk.fail("reverse:indices", "FineContour.reverse does not reverse the positions / exchange startInd and endInd", {"case": c, "got": r})
             impl_distance_props(chk, c, r)
             items.append(f"k_distance {_pl(c['pos'])} {_fl(r['distance'])} {_fl(r['rev'])} {common.fhex(float.fromhex(r['total']))} {c['si']}%nat {c['ei']}%nat")
+        elif c["kind"] == "interp":
+            impl_interp_props(chk, c, r)
+            items.append(f"k_interp {_pl(c['pos'])} {c['si']}%nat {_fl(c['s'])} {_pl([p[:2] for p in r['points']])} {_fl([p[2] for p in r['points']])}")
         elif c["kind"] == "getdist":
             items.append(f"k_getdist {_pl(c['pos'])} {_pl(c['pts'])} {_fl(r['values'])}")
         else:
